@@ -10,7 +10,10 @@
              declarations referring to each other (sharing, cycles, unresolved names);
              arrays of structs/unions, arrays of arrays, empty structs
      "anon"  anonymous inline struct/union members   (impl /= ABI: witness of a finding)
-     "wide"  members that are enumerations needing 64 bits (impl /= ABI: witness of a finding)
+     "wide"  members that are enumerations needing 64 bits (with EnumCap32 = TRUE, the code before fix
+             7607f22, impl /= ABI: what-if witness)
+     "ucb"   inline callback members of unions (with UnionFieldCallback = FALSE, the code before fix
+             927c0d9, the parser aborts: what-if witness)
      "hidden" by-value members whose type the GIR does not describe (impl /= property: witness)
    Small = TRUE shrinks "nest" (5 leaves instead of 10) and drops the environments of "misc":
    the quick tier.  FlatLen bounds the sequence length of "flat". *)
@@ -51,6 +54,7 @@ Members == CASE Mode = "flat" -> K14
              [] Mode = "anon" -> {Sc("uint8"), Sc("double"), ASt(<<Sc("int32"), Sc("uint8")>>), AUn(<<Sc("double"), Sc("uint8")>>)}
              [] Mode = "wide" -> {Sc("uint8"), Sc("int32"), En(R("0"), R("4294967296")), En(R("-1"), R("2147483648")),
                                   En(R("-2147483649"), R("0"))}
+             [] Mode = "ucb" -> {Sc("uint8"), Sc("double"), Sc("callback"), Un(<<Sc("callback"), Sc("uint8")>>), Sc("cbref")}
              [] Mode = "hidden" -> {Sc("uint8"), Sc("double"), Sc("hid3"), Sc("hid8"), Sc("hid12"), Sc("hid16")}
              [] OTHER -> {}
 MaxLen == CASE Mode = "flat" -> FlatLen [] Mode = "nest" -> 2 [] OTHER -> 3
@@ -59,8 +63,8 @@ VARIABLE c
 Init == \/ c \in {LCase(kd, <<>>) : kd \in Kinds2}
         \/ Mode = "misc" /\ \/ c \in {LCase(kd, <<Sc("uint8"), a, Sc("uint8")>>) : kd \in Kinds2, a \in AllScalars}
                              \/ c \in {[kind |-> "enum", ms |-> <<>>, lo |-> l, hi |-> l, env |-> <<>>] : l \in ValidRanks}
-                             \/ ~Small /\ c \in {[kind |-> "env", ms |-> <<>>, lo |-> 2, hi |-> 0, env |-> <<a>>] : a \in Decl2}
-                             \/ ~Small /\ c \in {[kind |-> "env", ms |-> <<>>, lo |-> 3, hi |-> 0, env |-> <<a>>] : a \in Decl3}
+                             \/ (~Small /\ c \in {[kind |-> "env", ms |-> <<>>, lo |-> 2, hi |-> 0, env |-> <<a>>] : a \in Decl2})
+                             \/ (~Small /\ c \in {[kind |-> "env", ms |-> <<>>, lo |-> 3, hi |-> 0, env |-> <<a>>] : a \in Decl3})
 Next == \/ /\ c.kind \in Kinds2 /\ Len(c.ms) < MaxLen
            /\ \E m \in Members : c' = [c EXCEPT !.ms = Append(@, m)]
         \/ /\ c.kind = "enum" /\ c.lo = c.hi
@@ -78,32 +82,35 @@ ObsOf(kd, ms, wf) ==
      tl |-> [size |-> E.size, align |-> E.align, offs |-> IF E.produced THEN ExpandOffs(ms, E.offs, 1, 1) ELSE <<>>],
      gcc |-> [ok |-> A.known, size |-> A.size, align |-> A.align, offs |-> A.offs]]
 PropertyOn(r) == TypelibEqualsGcc(r) /\ Compiled(r) /\ UnknownRecordedAsUnknown(r)
-InStatement(ms) == ~HasAnon(ms) /\ ~HasWideEnum(ms) /\ ~HasHidden(ms)      \* outside: the three recorded deviations
+\* outside: the recorded deviations of the implementation layer (each has a witness configuration)
+InStatement(kd, ms) == /\ ~HasAnon(ms) /\ ~HasHidden(ms)
+                       /\ EnumCap32 => ~HasWideEnum(ms)
+                       /\ ~UnionFieldCallback => ~HasUnionCallback(kd, ms)
 
 Sane == IsLayout => IF c.kind = "union" THEN SaneUnion(c.ms) ELSE SaneStruct(c.ms)
 \* implementation layer => property layer, for g-ir-compiler (warnings fatal) and for the library code
 \* running to completion (warnings not fatal)
-ImplSatisfiesProperty == (IsLayout /\ InStatement(c.ms)) => PropertyOn(ObsOf(c.kind, c.ms, TRUE)) /\ PropertyOn(ObsOf(c.kind, c.ms, FALSE))
+ImplSatisfiesProperty == (IsLayout /\ InStatement(c.kind, c.ms)) => PropertyOn(ObsOf(c.kind, c.ms, TRUE)) /\ PropertyOn(ObsOf(c.kind, c.ms, FALSE))
 ImplSatisfiesPropertyAll == IsLayout => PropertyOn(ObsOf(c.kind, c.ms, TRUE)) /\ PropertyOn(ObsOf(c.kind, c.ms, FALSE))   \* witness configs
 \* what the implementation layer says beyond the property: g-ir-compiler produces a typelib exactly
 \* for the declarations it can size, and the unknown encoding is size -1 / alignment 63 / 0xFFFF
 ImplShape == IsLayout =>
     LET L == ImplLayout(c.kind, c.ms) IN
-    /\ L.st # "fatal"
+    /\ (L.st = "fatal") = ParserAborts(c.kind, c.ms)
     /\ Encode(L, TRUE).produced = (L.st = "ok")
-    /\ (InStatement(c.ms) => ((L.st = "ok") = AbiLayout(c.kind, c.ms).known))
+    /\ (InStatement(c.kind, c.ms) => ((L.st = "ok") = AbiLayout(c.kind, c.ms).known))
     /\ L.st = "unknown" => LET E == Encode(L, FALSE) IN E.size = -1 /\ E.align = 63
     /\ L.st = "ok" => IsPow2(L.align)                        \* GI_ALIGN's precondition
 \* the anonymous members are simply absent from what the implementation computes
-AnonDropped == IsLayout => ImplLayout(c.kind, c.ms) = ImplLayout(c.kind, ParsedMembers(c.ms))
+AnonDropped == (IsLayout /\ ~ParserAborts(c.kind, c.ms)) => ImplLayout(c.kind, c.ms) = ImplLayout(c.kind, ParsedMembers(c.ms))
 
 EnumImplSize(l, h) == StorageSize(TagNum[EnumImplTag(l, h)])
 EnumImplSigned(l, h) == StorageSigned(TagNum[EnumImplTag(l, h)])
-EnumOK == (c.kind = "enum" /\ ~EnumWide(c.lo, c.hi)) =>
+EnumOK == (c.kind = "enum" /\ (EnumCap32 => ~EnumWide(c.lo, c.hi))) =>
              EnumImplSize(c.lo, c.hi) = EnumAbi(c.lo, c.hi).size /\ EnumImplSigned(c.lo, c.hi) = EnumAbi(c.lo, c.hi).signed
 EnumOKAll == c.kind = "enum" => EnumImplSize(c.lo, c.hi) = EnumAbi(c.lo, c.hi).size       \* witness
 \* the recorded deviation, exactly: compute_enum_storage_type never goes beyond 4 bytes
-EnumWideIs4 == (c.kind = "enum" /\ EnumWide(c.lo, c.hi)) =>
+EnumWideIs4 == (EnumCap32 /\ c.kind = "enum" /\ EnumWide(c.lo, c.hi)) =>
                   /\ EnumImplSize(c.lo, c.hi) = 4
                   /\ EnumRangeClass(c.lo, c.hi) # "fits-32-bits"
                   /\ EnumImplSigned(c.lo, c.hi) = EnumAbi(c.lo, c.hi).signed
